@@ -83,6 +83,31 @@ def _gen_one(item, max_len):
         raise NotImplementedError(f'regex construct {op}')
 
 
+def _unbounded(items):
+    for op, av in items:
+        if op in (sre_c.MAX_REPEAT, sre_c.MIN_REPEAT):
+            if av[1] == sre_c.MAXREPEAT or _unbounded(list(av[2])):
+                return True
+        elif op == sre_c.SUBPATTERN and _unbounded(list(av[3])):
+            return True
+        elif op == sre_c.BRANCH and any(_unbounded(list(a)) for a in av[1]):
+            return True
+    return False
+
+
+def family_bound(regexp, max_len, slack):
+    """length bound used for one regex: a finite language is enumerated completely; an open-ended family (DII+P, pair
+    trees, C[AD]+R paths ...) up to max(max_len, its shortest name + slack) so that long prefixes (SET_C..R, MAP_C..R,
+    UNP..R) are covered as deeply as the short ones"""
+    items = list(sre_parse.parse(regexp.pattern))
+    if not _unbounded(items):
+        return 64
+    n = 1
+    while not any(True for _ in _gen(items, n)):
+        n += 1
+    return max(max_len, n + slack)
+
+
 def names_of(regexp, max_len):
     """all names of length <= max_len accepted by a compiled regex (verified with the regex itself)"""
     out = sorted(set(_gen(list(sre_parse.parse(regexp.pattern)), max_len)), key=lambda s: (len(s), s))
